@@ -145,7 +145,7 @@ func refT4T7(c *t4t7Case) (ms int64, ok bool) {
 			neg = t[0] == '-'
 			t = t[1:]
 		}
-		if t == "" || len(t) > 25 {
+		if t == "" {
 			return 0, false
 		}
 		var v uint64
@@ -201,7 +201,7 @@ func checkT4T7(c *t4t7Case) string {
 }
 
 var entryPool = []string{"gfet4t7; dur=12", "gfet4t7; dur=0", "gfet4t7; dur=-3", "gfet4t7; dur=+7", "gfet4t7; dur=", "gfet4t7; dur= 5", "gfet4t7; dur=5 ", "gfet4t7; dur=1.5", "gfet4t7; dur=9223372036854775807",
-	"gfet4t7; dur=9223372036854775808", "gfet4t7; dur=99999999999999999999999", "gfet4t7; dur=0x10", "gfet4t7; dur=1_000", "gfet4t7;dur=4", "GFET4T7; dur=4", "other; dur=9", "", "gfet4t7", "gfet4t7; dur=٣", "gfet4t7; dur=12, x"}
+	"gfet4t7; dur=9223372036854775808", "gfet4t7; dur=99999999999999999999999", "gfet4t7; dur=00000000000000000000000000", "gfet4t7; dur=-0000000000000000000000000007", "gfet4t7; dur=0x10", "gfet4t7; dur=1_000", "gfet4t7;dur=4", "GFET4T7; dur=4", "other; dur=9", "", "gfet4t7", "gfet4t7; dur=٣", "gfet4t7; dur=12, x"}
 
 func genT4T7(rt *rapid.T) *t4t7Case {
 	list := func(label string) []string {
